@@ -294,7 +294,7 @@ theorem add_no_conflict (dev : Device) (nQ : Nat) (hd : DevOk dev) (s : SeqState
             rfl
   obtain ⟨r, hr1, hr2, hr3⟩ := hcore
   subst hr1
-  obtain ⟨c, c', last, slot, pr, ref, hgc, hl, _, hm, hget, hl'⟩ := addCore_ok_spec hinvs hr2
+  obtain ⟨c, c', last, slot, pr, ref, hgc, hl, _, _, hm, hget, hl'⟩ := addCore_ok_spec hinvs hr2
   refine ⟨c, c', last, slot, hgc, hl, ?_, hl', ?_⟩
   · simp only [stepRaw] at hr3
     rw [getChan_of_chans hr3]; exact hget
